@@ -20,6 +20,9 @@ struct tctx { /* per simulated thread */
 	unsigned n_gvt;
 	bool silent;      /* between checkpoint restore and the end of do_rollback */
 	bool in_term_gvt; /* inside termination_on_gvt */
+	bool in_round;    /* between this thread's first phase-A visit of a reduction and the end of that reduction */
+	double round_min; /* smallest timestamp it extracted or was rolled back to meanwhile */
+	double round_min_ts_at;
 	double term_gvt;
 	unsigned votes;
 	uint64_t forward, silent_n, rollbacks, undone, ckpts, antis; /* since the last stats record */
@@ -55,6 +58,8 @@ struct lpmon {
 	uint64_t forward;
 	/* C20: number of processed / total entries the harness believes the history holds */
 	uint64_t trk_proc, trk_total;
+	/* C07: history index of the event at which the runtime latched "this LP has terminated" (0 = not latched) */
+	size_t latch_idx;
 };
 static struct lpmon LM[MODEL_MAX_LPS];
 
@@ -72,6 +77,8 @@ static struct {
 	bool hang_after_decision;
 	unsigned *thr_to_end[VERIF_NRANKS];
 	unsigned *c_b[VERIF_NRANKS];
+	unsigned *c_d[VERIF_NRANKS];
+	double unlatched; /* the value of lp_ctx.termination_t that means "not terminated" (learnt at LP initialisation) */
 	int *nodes_to_end[VERIF_NRANKS];
 	char stats_path[256];
 } M;
@@ -329,6 +336,8 @@ struct lp_msg *verif_wrap_msg_queue_extract(void)
 	M.n_extract++;
 	pend_del(m);
 	struct tctx *c = tc();
+	if(c->in_round && m->dest_t < c->round_min)
+		c->round_min = m->dest_t;
 	if(m->dest_t < c->last_gvt)
 		sim_violation("C04", "extract-below-gvt", "thread %d extracted a message with t=%g after being told GVT=%g",
 		    vt_self->id, m->dest_t, c->last_gvt);
@@ -336,6 +345,8 @@ struct lp_msg *verif_wrap_msg_queue_extract(void)
 	if(d >= (lp_id_t)P.n_lps || LM[d].owner_vt != vt_self->id || LM[d].init_count != 1)
 		sim_violation("C14", "misrouted", "thread %d (rank %d) extracted an event for LP %llu owned by thread %d",
 		    vt_self->id, vt_self->rank, (unsigned long long)d, d < (lp_id_t)P.n_lps ? LM[d].owner_vt : -1);
+	if(lp_of(vt_self->rank, d)->p.early_antis)
+		probe_hit("early_anti_listed");
 	sim_event(0x31, d, dbl_bits_(m->dest_t));
 	return m;
 }
@@ -374,6 +385,11 @@ void verif_wrap_termination_on_gvt(simtime_t g)
 			    M.round_gvt[k]);
 		}
 	}
+	if(c->in_round && c->round_min < g)
+		sim_violation("C04", "gvt-above-own-extraction",
+		    "thread %d is told GVT=%g although it extracted a message with t=%g after it had joined this reduction", vt_self->id, g,
+		    c->round_min);
+	c->in_round = false;
 	c->last_gvt = g;
 	M.final_gvt = g > M.final_gvt ? g : M.final_gvt;
 	check_pending_above(g, "reported");
@@ -390,6 +406,23 @@ void engine_on_sp(struct vthread *t, int kind, const volatile void *addr)
 {
 	if(P.engine >= 1 && P.engine <= 3)
 		return;
+	{
+		static const char *f_thread_phase, *f_node_phase;
+		const char *fn = t->sp_func;
+		if(fn && fn != f_thread_phase && fn != f_node_phase) {
+			if(!f_thread_phase && !strcmp(fn, "gvt_thread_phase_run"))
+				f_thread_phase = fn;
+			else if(!f_node_phase && !strcmp(fn, "gvt_node_phase_run"))
+				f_node_phase = fn;
+		}
+		struct tctx *c = &TC[t->id];
+		if(fn && fn == f_thread_phase && !c->in_round) {
+			c->in_round = true; /* from here on everything this thread extracts is covered by its accumulator */
+			c->round_min = __builtin_inf();
+		} else if(fn && fn == f_node_phase && kind == VSP_FSUB_K && t->rank < VERIF_NRANKS && addr == (void *)M.c_d[t->rank]) {
+			c->in_round = false; /* node_done: the reduction is over for this thread */
+		}
+	}
 	if(kind != VSP_FSUB_K || t->rank >= VERIF_NRANKS || addr != (void *)M.thr_to_end[t->rank])
 		return;
 	struct tctx *c = &TC[t->id];
@@ -422,6 +455,8 @@ void verif_wrap_termination_on_lp_rollback(struct lp_ctx *lp, simtime_t msg_time
 	c->silent = false;
 	c->rollbacks++;
 	M.n_rollbacks++;
+	if(c->in_round && msg_time < c->round_min)
+		c->round_min = msg_time;
 	if(msg_time < c->last_gvt)
 		sim_violation("C04", "rollback-below-gvt", "LP %llu rolled back to t=%g after its thread was told GVT=%g",
 		    (unsigned long long)me, msg_time, c->last_gvt);
@@ -458,11 +493,25 @@ void verif_wrap_termination_on_lp_rollback(struct lp_ctx *lp, simtime_t msg_time
 	}
 	sim_event(0x50, me, dbl_bits_(msg_time));
 	RKC->termination_on_lp_rollback(lp, msg_time);
+	/* C07: if the event at which the runtime latched the termination of this LP has just been undone, the latch must go too */
+	if(L->latch_idx > idx) {
+		if(lp->termination_t != M.unlatched && lp->termination_t != SIMTIME_MAX)
+			sim_violation("C07", "stale-termination",
+			    "LP %llu: the event (history index %zu) on which its termination was latched was undone by a rollback to index %zu (t=%g), "
+			    "but the LP is still marked terminated at t=%g", (unsigned long long)me, L->latch_idx, idx, msg_time, lp->termination_t);
+		L->latch_idx = 0;
+		probe_hit("latch_undone");
+	}
 }
 
 void verif_wrap_termination_on_msg_process(struct lp_ctx *lp, simtime_t msg_time)
 {
+	simtime_t before = lp->termination_t;
 	RKC->termination_on_msg_process(lp, msg_time);
+	if(before == M.unlatched && lp->termination_t != M.unlatched) {
+		lp_id_t me = (lp_id_t)(lp - *RK[vt_self->rank].lps);
+		LM[me].latch_idx = array_count(lp->p.p_msgs); /* the event has already been pushed */
+	}
 }
 
 void verif_wrap_model_allocator_checkpoint_take(struct mm_state *self, array_count_t ref_i)
@@ -509,17 +558,34 @@ array_count_t verif_wrap_model_allocator_fossil_lp_collect(struct mm_state *self
 	return r;
 }
 
+/* a committed-history violation found while the run is being torn down is held back until the end-state oracles of C01/C02 have
+ * spoken too, so that one run can be attributed to both */
+static char soft_prop[8], soft_cls[48], soft_msg[700];
+#define COMMIT_VIOLATION(cls, ...)                                                                                     \
+	do {                                                                                                           \
+		if(strcmp(where, "shutdown"))                                                                          \
+			sim_violation("C03", cls, __VA_ARGS__);                                                        \
+		if(!soft_prop[0]) {                                                                                    \
+			snprintf(soft_prop, sizeof(soft_prop), "C03");                                                 \
+			snprintf(soft_cls, sizeof(soft_cls), "%s", cls);                                               \
+			snprintf(soft_msg, sizeof(soft_msg), __VA_ARGS__);                                             \
+		}                                                                                                      \
+		return;                                                                                                \
+	} while(0)
+
 static void commit_entry(lp_id_t me, const struct ev_rec *e, double gvt, const char *where)
 {
 	struct lpmon *L = &LM[me];
 	struct ref_lp *R = &REF[me];
 	size_t k = L->committed;
+	if(soft_prop[0])
+		return;
 	if(k >= R->n_seq)
-		sim_violation("C03", "committed-extra", "LP %llu: %s committed event #%zu (t=%g type=%u) that the sequential run never delivers (GVT=%g)",
+		COMMIT_VIOLATION("committed-extra", "LP %llu: %s committed event #%zu (t=%g type=%u) that the sequential run never delivers (GVT=%g)",
 		    (unsigned long long)me, where, k, e->ts, e->type, gvt);
 	const struct ev_rec *r = &R->seq[k];
 	if(r->ts != e->ts || r->type != e->type || r->pl_size != e->pl_size || r->pl_hash != e->pl_hash)
-		sim_violation("C03", "committed-mismatch",
+		COMMIT_VIOLATION("committed-mismatch",
 		    "LP %llu: %s committed event #%zu is (t=%g type=%u size=%u), sequential history has (t=%g type=%u size=%u) (GVT=%g)",
 		    (unsigned long long)me, where, k, e->ts, e->type, e->pl_size, r->ts, r->type, r->pl_size, gvt);
 	L->committed++;
@@ -592,6 +658,7 @@ void verif_wrap_fossil_lp_collect(struct lp_ctx *lp)
 			memset(L->hist_digest + n, 0, (L->hist_cap - n) * sizeof(uint64_t));
 		}
 		L->hist_base += removed;
+		L->latch_idx = L->latch_idx > removed ? L->latch_idx - removed : 0;
 		if(array_count(lp->mm_state.logs) >= 2)
 			probe_hit("fossil_keeps_2plus_ckpts");
 	}
@@ -695,6 +762,11 @@ void verif_wrap_lp_init(void)
 	c->end = *rk->p_lid_thread_end();
 	c->lp_init_done = true;
 	c->rid = (int)*rk->p_rid();
+	for(uint64_t i = c->first; i < c->end; i++) {
+		struct lp_ctx *lp = lp_of(vt_self->rank, i);
+		if(!model_can_end(i, lp->state_pointer))
+			M.unlatched = lp->termination_t;
+	}
 	M.workers_inited++;
 	sim_event(0x13, c->first, c->end);
 }
@@ -873,6 +945,8 @@ static void resolve_statics(void)
 		M.thr_to_end[r] = sim_symbol_addr(nm);
 		snprintf(nm, sizeof(nm), "r%d_c_b", r);
 		M.c_b[r] = sim_symbol_addr(nm);
+		snprintf(nm, sizeof(nm), "r%d_c_d", r);
+		M.c_d[r] = sim_symbol_addr(nm);
 		snprintf(nm, sizeof(nm), "r%d_nodes_to_end", r);
 		M.nodes_to_end[r] = sim_symbol_addr(nm);
 		if(!M.thr_to_end[r] || !M.c_b[r]) {
@@ -889,6 +963,7 @@ void tw_run(void)
 	memset(&M, 0, sizeof(M));
 	memset(TC, 0, sizeof(TC));
 	memset(LM, 0, sizeof(LM));
+	soft_prop[0] = 0;
 	pend_n = 0;
 	memset(pend, 0, sizeof(pend));
 	for(int i = 0; i < MODEL_MAX_LPS; i++)
@@ -1124,12 +1199,19 @@ static void final_checks(void)
 			if(!LM[i].fini_pred)
 				sim_violation("C07", "final-state-predicate", "LP %llu is finalised in a state that does not satisfy its predicate",
 				    (unsigned long long)i);
-			if(LM[i].fini_digest != REF[i].digest_first_true)
+			if(LM[i].fini_digest != REF[i].digest_first_true) {
+				if(soft_prop[0]) {
+					sim_note("also=%s:final-state ", P.n_ranks > 1 ? "C02" : "C01");
+					break;
+				}
 				sim_violation(P.n_ranks > 1 ? "C02" : "C01", "final-state",
 				    "LP %llu: state at LP_FINI differs from the sequential execution (ref events %zu, handled fw %llu)",
 				    (unsigned long long)i, REF[i].n_seq, (unsigned long long)LM[i].forward);
+			}
 		}
 	}
+	if(soft_prop[0])
+		sim_violation(soft_prop, soft_cls, "%s", soft_msg);
 }
 
 /* ------------------------------------------------------------------ hooks called by the scheduler */
